@@ -94,9 +94,10 @@ func (h *hist) receive(c *cl, m sigdrv.Msg) {
 	c.log = append(c.log, rec{step: h.step, pidx: c.pidx(), m: m})
 }
 
-// overlaps: was x a member of g at some step of [from, to] (to == -1: until now)?
-func overlaps(x *cl, g string, from, to int) (*interval, bool) {
-	var last *interval
+// overlaps: the memberships of x in g that share a step with [from, to]
+// (to == -1: until now).
+func overlaps(x *cl, g string, from, to int) []*interval {
+	var out []*interval
 	for _, k := range x.ivs {
 		if k.g != g {
 			continue
@@ -107,9 +108,9 @@ func overlaps(x *cl, g string, from, to int) (*interval, bool) {
 		if k.to != -1 && k.to < from {
 			continue
 		}
-		last = k
+		out = append(out, k)
 	}
-	return last, last != nil
+	return out
 }
 
 func (h *hist) userEvent(c *cl, m sigdrv.Msg) {
@@ -122,7 +123,7 @@ func (h *hist) userEvent(c *cl, m sigdrv.Msg) {
 	// the group of a client changes during that only when the batch ends in
 	// an error (kick), after the message was written.
 	t.Checked("C14.no_cross_group")
-	var subjIv *interval
+	var subjIvs []*interval
 	p := c.pidx()
 	x := h.byID(m.Id)
 	switch {
@@ -137,18 +138,24 @@ func (h *hist) userEvent(c *cl, m sigdrv.Msg) {
 		t.Fail("C14", "no_cross_group", fmt.Sprintf("%s in %q received %s about an id no client has", who, c.grp, what))
 	default:
 		j := c.ivs[p]
-		k, ok := overlaps(x, j.g, j.from, j.to)
-		if !ok {
+		subjIvs = overlaps(x, j.g, j.from, j.to)
+		if len(subjIvs) == 0 {
 			t.Fail("C14", "no_cross_group", fmt.Sprintf(
 				"%s in %q (member since step %d) received %s at step %d, but client %d was never a member of %q during that membership",
 				who, c.grp, j.from, what, h.step, x.h, j.g))
 		}
-		subjIv = k
 	}
 
 	// the aliasing transient: a permission list the subject never had
-	if (m.Kind == "add" || m.Kind == "change") && subjIv != nil {
-		if !subjIv.seen[plus(m.Permissions)] || hasDuplicate(m.Permissions) {
+	// between two steps of any of those memberships
+	if (m.Kind == "add" || m.Kind == "change") && len(subjIvs) > 0 {
+		seen := false
+		for _, k := range subjIvs {
+			if k.seen[plus(m.Permissions)] {
+				seen = true
+			}
+		}
+		if !seen || hasDuplicate(m.Permissions) {
 			t.Note("aliasing-transient-seen")
 			h.transients++
 		}
@@ -286,7 +293,8 @@ func (c *cl) events(j int, kind, id string) []rec {
 func (h *hist) check() {
 	t := h.t
 	if rs := h.runnable(); len(rs) > 0 {
-		panic("check called while a client is runnable")
+		t.Note("quiescence-check-skipped-somebody-runnable")
+		return
 	}
 	h.checks++
 	big := false
